@@ -4,6 +4,7 @@
    Only statements, closed by [exact]. *)
 From Coq Require Import List NArith Bool.
 From FB Require Import Gen.Validators Model.Names Model.HostFs Model.Passthrough Proofs.PassthroughCreds Proofs.PassthroughRefine Proofs.PassthroughWbAppend.
+From FB Require Lib.RustExpr Gen.RustPure Proofs.RustPure Proofs.RustPurePassthrough.
 Import ListNotations.
 Local Open Scope N_scope.
 
@@ -128,6 +129,19 @@ Example C05_nonvacuous : p_creds (init_state wit_host 10) = root_creds /\ host_w
   direct_reply wit_cfg (init_state wit_host 10) (QMkdir ROOT_ID [110] 493 0 1000 1000) <> None.
 Proof. exact wit_ok. Qed.
 
+(* ---- tie to the source text (Gen/RustPure.v is re-translated from src/passthrough/{mod,util}.rs on every run): the
+   model's open-flag rewriting under the writeback cache and its safe-inode test are what the bodies of
+   get_writeback_open_flags and is_safe_inode compute (libc constants of this platform) *)
+Theorem C05_src_get_writeback_open_flags : forall cf flags, flags < 4294967296 ->
+  RustExpr.eval_fn RustExpr.Debug RustPure.get_writeback_open_flags_src
+    [RustExpr.VInt RustExpr.I32 flags; RustExpr.VBool (c_writeback cf)] =
+  RustExpr.Val (RustExpr.VInt RustExpr.I32 (get_writeback_open_flags cf flags)).
+Proof. exact RustPurePassthrough.src_get_writeback_open_flags. Qed.
+Theorem C05_src_is_safe_inode : forall mode, mode < 4294967296 ->
+  RustExpr.eval_fn RustExpr.Debug RustPure.is_safe_inode_src [RustExpr.VInt RustExpr.U32 mode] =
+  RustExpr.Val (RustExpr.VBool (is_safe_inode mode)).
+Proof. exact RustPurePassthrough.src_is_safe_inode. Qed.
+
 Print Assumptions C05_op_refines_syscall.
 Print Assumptions C05_history.
 Print Assumptions C05_reply_partial.
@@ -149,3 +163,5 @@ Print Assumptions C05_writeback_append.
 Print Assumptions C05_reopen_as_caller_refuted.
 Print Assumptions C05_reopen_as_caller_partial.
 Print Assumptions C05_special_never_opened.
+Print Assumptions C05_src_get_writeback_open_flags.
+Print Assumptions C05_src_is_safe_inode.
